@@ -207,11 +207,27 @@ func ruleRecoverClosure(c *Ctx, rule string) {
 				}
 				return false, false
 			},
-			Target: func(t ssa.Instruction) bool { _, ok := t.(*ssa.Return); return ok },
-			Block:  func(t ssa.Instruction) bool { return t == ssa.Instruction(call) },
+			Target: func(t ssa.Instruction) bool {
+				switch t.(type) {
+				case *ssa.Return, *ssa.Panic:
+					return true
+				}
+				return false
+			},
+			Block: func(t ssa.Instruction) bool { return t == ssa.Instruction(call) },
 		}).Search(an.After(rec.(ssa.Instruction)))
 		if miss != nil {
-			why = append(why, "a recovered panic can be swallowed without calling the recovery function")
+			why = append(why, "a recovered panic can be swallowed or re-raised without calling the recovery function")
+		}
+		// nothing re-panics after recovery either
+		repanic := false
+		an.AllInstrs(cl, func(in ssa.Instruction) {
+			if _, ok := in.(*ssa.Panic); ok {
+				repanic = true
+			}
+		})
+		if repanic {
+			why = append(why, "the recovering closure panics again: that value escapes ServeHTTP")
 		}
 		c.R.Add(rule, c.fk(cl), "recoverFunc-call/once-with-writer-and-recovered-value", c.pos(call), len(why) == 0, ifelse(len(why) == 0, "called once, on r != nil, with (w, recover())", strings.Join(why, "; ")))
 	}
